@@ -44,7 +44,7 @@ FA_T = FA_Q + [F(2, 1, [3, 3, 3]), F(3, 1, [1, 2, 2], INITT=5, INITS=2), F(3, 1,
 CHECKS = {
  'C11': {
   'level': 'model_checking',
-  'explanation': 'Two or three heap-allocated automaton objects (so that construction and destruction are calls of the history) go through a symbolic history: a symbolic initial automaton in handle 0, then STEPS calls, each chosen by an input code from the families enabled for that step (copies/lifetime: copy-assign incl. self-assignment, copy-construct incl. the copyTrans/copyFinal variants, move-construct and move-assign with the moved-from object destroyed, move-construct followed by copy-/move-assignment back into the moved-from object, destroy; mutations: AddTransition of any universe rule, SetStateFinal, EraseFinalStates, Clear (word automata: AddTransition, SetStateFinal, SetStateStart); results: RemoveUnreachableStates / RemoveUselessStates (word automata also Reverse) stored into any handle incl. the operand itself; unions: UnionDisjointStates stored into a handle, Union with translation maps kept as a separate object; bulk additions: ReindexStates(dst, functor) and CopyTransitionsFrom into an existing handle). Every handle has a shadow value (one boolean per universe rule, mask of final states; word automata also the start states and the start-symbol map) updated with value semantics; after every call every handle is read back (tree: iteration with exactly-once check, GetFinalStates, ContainsTransition; word: the public DumpToString with a decoding serializer, GetStartStates, GetStartSymbols of every state) and must equal its shadow; results of operations must agree with a pure function of the operand shadows (naive fixpoint oracles; RemoveUselessStates of tree automata, ReindexStates, CopyTransitionsFrom: equal to it; Union: the documented renaming-and-merging, i.e. the disjoint union modulo the returned injective maps; RemoveUnreachableStates, UnionDisjointStates and, for word automata, RemoveUselessStates and Reverse, whose contract is only language-level: between the part of the operands that lies on accepting runs and the whole operands (tree RemoveUnreachableStates: rules with a reachable parent), the value actually read becoming the shadow of the result handle, so that e.g. final states without rules or the start-symbol entries of non-start states may be kept or dropped by the library) and the kept Union result must stay equal to its snapshot; at the end IsLangEmpty / RemoveUselessStates (word: RemoveUnreachableStates) of every handle must again equal the oracle on the shadow. Use of freed storage, double free and leaks of ownership in the copy-on-write machinery are caught by the engine\'s memory model.',
+  'explanation': 'Two or three heap-allocated automaton objects (so that construction and destruction are calls of the history) go through a symbolic history: a symbolic initial automaton in handle 0, then STEPS calls, each chosen by an input code from the families enabled for that step (copies/lifetime: copy-assign incl. self-assignment, copy-construct incl. the copyTrans/copyFinal variants, move-construct and move-assign with the moved-from object destroyed, move-construct followed by copy-/move-assignment back into the moved-from object, destroy; mutations: AddTransition of any universe rule, SetStateFinal, EraseFinalStates, Clear (word automata: AddTransition, SetStateFinal, SetStateStart); results: RemoveUnreachableStates / RemoveUselessStates (word automata also Reverse) stored into any handle incl. the operand itself; unions: UnionDisjointStates stored into a handle, Union with translation maps kept as a separate object; bulk additions: ReindexStates(dst, functor) and CopyTransitionsFrom into an existing handle). Every handle has a shadow value (one boolean per universe rule, mask of final states; word automata also the start states and the start-symbol map) updated with value semantics; after every call every handle is read back (tree: iteration with exactly-once check, GetFinalStates, ContainsTransition; word: the public DumpToString with a decoding serializer, GetStartStates, GetStartSymbols of every state) and must equal its shadow; results of operations must agree with a pure function of the operand shadows (naive fixpoint oracles; RemoveUselessStates of tree automata, ReindexStates, CopyTransitionsFrom: equal to it; RemoveUnreachableStates, UnionDisjointStates, Union (read through the returned maps, which must be injective with disjoint ranges and name every state of the result) and, for word automata, RemoveUselessStates and Reverse, whose contract is only language-level: between the part of the operands that lies on accepting runs and the whole operands (tree RemoveUnreachableStates: rules with a reachable parent), the value actually read becoming the shadow of the result handle, so that e.g. final states without rules or the start-symbol entries of non-start states may be kept or dropped by the library) and the kept Union result must stay equal to its snapshot; at the end IsLangEmpty / RemoveUselessStates (word: RemoveUnreachableStates) of every handle must again equal the oracle on the shadow. Use of freed storage, double free and leaks of ownership in the copy-on-write machinery are caught by the engine\'s memory model.',
   'bounds': {'quick': 'tree automata: 2 handles (3 in three queries), initial automaton any subset of 2 x {a/0,a/1} (also 3 x {a/0,a/1}, 2 x {a/0,g/2}, 3 x {a/0,f/1} with a restricted initial automaton), 2..3 calls from the planned families; word automata: 2..3 handles, 2..3 states, 1..2 symbols, 2..4 calls; 16..24 free input bits per query (1..60 s each)',
              'thorough': 'as quick plus histories of 3..4 calls on the same universes'},
   'outside': 'more than 3 live objects, more than 4 calls after the initial automaton, more than 3 states / rank > 2; moved-from objects are only destroyed or assigned to (any other call on them is outside the contract of the library: core_ is null); automata with a private tuple cache or a private alphabet (not constructible through the public facade); Intersection, Complement, Reduce, CollapseStates, TranslateSymbols, GetCandidateTree and inclusion checking as sources of sharing (they build their result rule by rule from scratch); word automata: the start-symbol map is treated as part of the value for every state (Reverse / RemoveUselessStates keep entries of states that are no longer start states), UnionDisjointStates is only called when the operands mention disjoint state sets including the keys of that map; Intersection, Complement, GetCandidateTree, simulation and inclusion on word automata',
